@@ -90,6 +90,7 @@ def run(ctx, rep):
     unwrap_assign_target_is_a_name(F, rep)
     folder_arithmetic_cannot_panic(F, rep)
     generator_errors_are_propagated(F, rep)
+    path_parts_exist(F, rep)
     rep.extra["analysis_rounds"] = fl.rounds
     rep.extra["hand_assembled_option_unwraps_counted_not_judged"] = getattr(fl, "uncounted", 0)
     # K4 panics outside the clause: counted
@@ -769,3 +770,34 @@ def generator_errors_are_propagated(F, rep, rule="C16.codegen-errors"):
     rep.ob(rule, "Expr::for_type reports a type mismatch with an error, not with an assertion", "violated" if asserts else "ok",
            "%d assert_eq!/assert_ne! in the type computation: `x = \"ab\" or \"abc\"` panics the compiler" % len(asserts) if asserts else "", asserts[0].span if asserts else ft.span,
            fn=ft.path, key=rule + "|for_type-asserts")
+
+
+def path_parts_exist(F, rep, rule="C16.path-shape"):
+    """`Path::file_name()` / `file_stem()` answer None for a path that ends in `..` (and `parent()` for an empty one).  The compiler builds
+    paths from what an import statement spells, so whether such an answer can be None is a question about the grammar: the non-naming path
+    features an import path can really contain (read from path_feature, PEG shadowing included, as for C11.module-identity).  Per unwrap /
+    expect of such an answer in crate compiler: safe while `..` cannot be spelled; once the grammar lets it through (`import ..`,
+    `import lib/..`) the unwrap is a panic an input reaches."""
+    from props import C11 as _c11
+    from mir import op_local
+    live, shadowed = _c11.path_features(F)
+    PARTS = ("std::path::Path::file_name", "std::path::Path::file_stem")
+    UNWRAPS = ("core::option::Option::unwrap", "core::option::Option::expect", "core::option::Option::unwrap_unchecked")
+    n = 0
+    for f in F.crates["compiler"].fns:
+        for c in f.calls():
+            if not c.matches(PARTS) or not c.dst:
+                continue
+            der = f.derived([c.dst["l"]])
+            uw = [u for u in f.calls() if u.matches(UNWRAPS) and u.args and op_local(u.args[0]) in der]
+            if not uw:
+                continue
+            n += 1
+            fshort = mir.short(re.sub(r"::\{closure#\d+\}", "::{closure}", f.path))
+            bad = ".." in live
+            rep.ob(rule, "%s: the %s of a path built from an import is unwrapped; the grammar cannot spell a path that has none" % (fshort, mir.short(c.callee()).split("::")[-1]),
+                   "violated" if bad else "ok",
+                   ("path_feature now lets `..` through (live features: %s): `import lib/..` inside a block gives a path without a final name and the unwrap at %s panics"
+                    % (live, uw[0].span)) if bad else "live path features: %s, shadowed by ordered choice: %s" % (live, shadowed), c.span, fn=f.path,
+                   key="%s|%s|%s" % (rule, fshort, mir.short(c.callee()).split("::")[-1]))
+    rep.floor(rule + " unwrapped path parts", n, 1)
